@@ -93,6 +93,10 @@ type frameGen struct {
 }
 
 func (g *frameGen) hostInfo() knxnet.HostInfo {
+	if g.e.Choose("wl.natendpoint", 6) == 0 {
+		// the route-back endpoint (address and port zero): what a client behind NAT announces
+		return knxnet.HostInfo{Protocol: knxnet.Protocol(1 + g.e.Choose("wl.proto", 2))}
+	}
 	return knxnet.HostInfo{Protocol: knxnet.Protocol(1 + g.e.Choose("wl.proto", 2)), Address: knxnet.Address{10, 0, byte(g.e.Choose("wl.ip", 256)), 7}, Port: knxnet.Port(1 + g.e.Choose("wl.port", 65535))}
 }
 
